@@ -32,10 +32,10 @@
 (***************************************************************************)
 EXTENDS Integers, Sequences, FiniteSets, TLC, Util
 
-CONSTANTS Worlds,     \* set of [name, public, consensus, fork, full (calls whose argument lists are enumerated in full), env]
-          MaxArgs,    \* argument lists up to this length are enumerated in full
-          MaxTx,      \* 1: one transaction per behaviour; 2: a probe transaction follows every executed one
-          Families    \* which shape families are enumerated: subset of {"env","gov","pk","amt"}
+CONSTANTS Worlds,     \* set of [name, public, consensus, fork, lowmin (the staking minimum was voted down to 1 aer),
+                      \*         full (calls whose argument lists are enumerated in full), depth (up to this length),
+                      \*         fams (shape families enumerated on this world: subset of {"env","gov","pk","amt"})]
+          MaxTx       \* 1: one transaction per behaviour; 2: a probe transaction follows every executed one
 
 VARIABLES world, sender,   \* the context: chain configuration and class of the sending account
           facts,           \* what the validators read from the state (changes when a transaction is executed)
@@ -52,7 +52,7 @@ NameOps == {"v1createName", "v1updateName", "v1setOwner"}
 EntOps  == {"appendAdmin", "removeAdmin", "setConf", "appendConf", "removeConf", "enableConf", "changeCluster"}
 GovRcpt == {"system", "name", "enterprise"}
 
-Senders == {"fresh", "rich", "stakedOld", "stakedNew", "votedOld", "votedNew", "nameOwner", "other", "admin"}
+Senders == {"fresh", "rich", "stakedOld", "stakedNew", "votedOld", "votedNew", "nameOwner", "other", "admin", "whale", "tiny"}
 
 \* classes whose JSON text is a string
 PidOK     == {"pid39", "pidbp", "pidshort", "pidmid", "pid34", "pidlong"}      \* base58 of a well-formed multihash
@@ -137,9 +137,7 @@ NaturalAmount(rc, op) == IF op = "v1stake" THEN "stake2"
 
 Amounts == {"zero", "one", "nameprice", "stakemin", "stake2", "max", "over", "b32", "b33", "lead0"}
 
-\* family "gov": every argument list up to MaxArgs over the alphabet of the call, for the calls the world enumerates in full
-GovFamily(w) == UNION {UNION {{Gov(rc, NaturalAmount(rc, op), "ci", op, ar) : ar \in Seqs(Alphabet(rc, op), MaxArgs)}
-                                : op \in OpsOf(rc) \cap w.full} : rc \in GovRcpt}
+\* family "gov": every argument list up to world.depth over the alphabet of the call, for the calls in world.full (see Submit)
 
 \* family "amt": every amount class on a well-formed call
 AmtFamily == UNION {UNION {{Gov(rc, am, "ci", op, ValidArgs(op)) : am \in Amounts} : op \in OpsOf(rc)} : rc \in GovRcpt}
@@ -179,25 +177,27 @@ EnvFamily == EnvA \cup EnvB
 
 \* which senders a shape is tried with
 SendersFor(w, t) ==
-  IF t.ty = "GOVERNANCE" /\ t.rc = "system" /\ t.pk # "empty" /\ t.ac = "addr"
+  IF w.lowmin THEN {"whale", "tiny"}
+  ELSE IF t.ty = "GOVERNANCE" /\ t.rc = "system" /\ t.pk # "empty" /\ t.ac = "addr"
     THEN {"fresh", "rich", "stakedOld", "stakedNew", "votedOld", "votedNew"}
   ELSE IF t.ty = "GOVERNANCE" /\ t.rc = "name" /\ t.ac = "addr" THEN {"fresh", "rich", "nameOwner", "other"}
   ELSE IF t.ty = "GOVERNANCE" /\ t.rc = "enterprise" /\ t.ac = "addr" THEN {"rich", "admin"}
   ELSE IF t.ac = "nameA" THEN {"rich", "nameOwner"}
   ELSE {"fresh", "rich"}
 
-AllShapes(w) == (IF "gov" \in Families THEN GovFamily(w) ELSE {}) \cup (IF "amt" \in Families THEN AmtFamily ELSE {})
-                \cup (IF "pk" \in Families THEN PkFamily ELSE {}) \cup (IF "env" \in Families /\ w.env THEN EnvFamily ELSE {})
-
 \* the second transaction of a behaviour: one well-formed call per governance operation
 OwnOps(rc) == CASE rc = "system" -> SysOps [] rc = "name" -> NameOps [] rc = "enterprise" -> EntOps
-Probes == UNION {{Gov(rc, NaturalAmount(rc, op), "ci", op, ValidArgs(op)) : op \in OwnOps(rc)} : rc \in GovRcpt}
+GovProbes == UNION {{Gov(rc, NaturalAmount(rc, op), "ci", op, ValidArgs(op)) : op \in OwnOps(rc)} : rc \in GovRcpt}
+\* ... and, for the name service, a transfer sent from a registered name and one sent to it
+NameProbes == {Shape("TRANSFER", "user", "nameA", "one", "zero", "zero", "next", "ok", "ok", "ok", "empty", "", <<>>),
+               Shape("TRANSFER", "nameA", "addr", "one", "zero", "zero", "next", "ok", "ok", "ok", "empty", "", <<>>)}
+Probes == GovProbes \cup NameProbes
 
 \* ------------------------------------------------------------------ what the validators read from the state
 InitFacts(w, s) ==
   LET dpos == w.consensus = "dpos" IN
   [funds    |-> s # "fresh",
-   staked   |-> dpos /\ s \in {"stakedOld", "stakedNew", "votedOld", "votedNew"},
+   staked   |-> dpos /\ (s \in {"stakedOld", "stakedNew", "votedOld", "votedNew"} \/ (w.lowmin /\ s \in {"whale", "tiny"})),
    recent   |-> dpos /\ s \in {"stakedNew", "votedNew"},                 \* Staking.When within the last day
    votedBP  |-> dpos /\ s \in {"votedOld", "votedNew"},
    votedDAO |-> dpos /\ w.fork >= 2 /\ s \in {"votedOld", "votedNew"},     \* a vote on BPCOUNT
@@ -373,7 +373,7 @@ NoTx  == [ty |-> "-"]
 NoOut == [types |-> "-", pool |-> "-", exec |-> "-"]
 
 Init == /\ world \in Worlds
-        /\ sender \in Senders
+        /\ sender \in (IF world.lowmin THEN {"whale", "tiny"} ELSE Senders \ {"whale", "tiny"})
         /\ facts = InitFacts(world, sender)
         /\ tx = NoTx /\ phase = "idle" /\ out = NoOut /\ n = 0
         /\ lastAct = [name |-> "Init"]
@@ -384,15 +384,15 @@ SubmitTx(t) == /\ (n = 0 => sender \in SendersFor(world, t))
                /\ UNCHANGED <<world, sender, facts, n>>
 
 \* a client or peer delivers a transaction.  (The families are enumerated by nested quantifiers: TLC does not have to
-\* build the set AllShapes(world), which holds several hundred thousand records for MaxArgs = 3.)
+\* build the set of all shapes of the world, which holds several hundred thousand records for depth 3.)
 Submit == /\ phase = "idle" /\ n < MaxTx
           /\ IF n = 0
-               THEN \/ /\ "gov" \in Families
-                       /\ \E rc \in GovRcpt : \E op \in OpsOf(rc) \cap world.full : \E m \in 0..MaxArgs :
+               THEN \/ /\ "gov" \in world.fams
+                       /\ \E rc \in GovRcpt : \E op \in OpsOf(rc) \cap world.full : \E m \in 0..world.depth :
                             \E ar \in [1..m -> Alphabet(rc, op)] : SubmitTx(Gov(rc, NaturalAmount(rc, op), "ci", op, ar))
-                    \/ "amt" \in Families /\ \E t \in AmtFamily : SubmitTx(t)
-                    \/ "pk" \in Families /\ \E t \in PkFamily : SubmitTx(t)
-                    \/ "env" \in Families /\ world.env /\ \E t \in EnvFamily : SubmitTx(t)
+                    \/ "amt" \in world.fams /\ \E t \in AmtFamily : SubmitTx(t)
+                    \/ "pk" \in world.fams /\ \E t \in PkFamily : SubmitTx(t)
+                    \/ "env" \in world.fams /\ \E t \in EnvFamily : SubmitTx(t)
                ELSE \E t \in Probes : SubmitTx(t)
 
 TypesValidate == /\ phase = "submitted"
@@ -423,10 +423,16 @@ Finish == /\ phase = "done"
           /\ lastAct' = [name |-> "Finish", step |-> n, tx |-> tx, out |-> out]
           /\ UNCHANGED <<world, sender, facts>>
 
+\* more than a day of blocks goes by between the first transaction and the probe (the waiting periods are over)
+TimePasses == /\ phase = "idle" /\ n = 1 /\ n < MaxTx /\ facts.recent
+              /\ facts' = [facts EXCEPT !.recent = FALSE]
+              /\ lastAct' = [name |-> "TimePasses"]
+              /\ UNCHANGED <<world, sender, tx, phase, out, n>>
+
 \* nothing more to do: MaxTx transactions went through (the only state without another successor)
 Done == phase = "idle" /\ n = MaxTx /\ UNCHANGED vars
 
-Next == Submit \/ TypesValidate \/ PoolValidate \/ Execute \/ Finish \/ Done
+Next == Submit \/ TypesValidate \/ PoolValidate \/ Execute \/ Finish \/ TimePasses \/ Done
 
 Spec == Init /\ [][Next]_vars
 
@@ -453,7 +459,7 @@ LayersInOrder == /\ (out.pool # "-" => out.types = "accept")
                  /\ (phase = "pooled" => out.pool = "accept")
 
 \* the state changes only through an executed transaction
-FactsOnlyByExecute == [][facts' # facts => lastAct'.name = "Execute" /\ out'.exec = "ok"]_vars
+FactsOnlyByExecute == [][facts' # facts => (lastAct'.name = "Execute" /\ out'.exec = "ok") \/ lastAct'.name = "TimePasses"]_vars
 
 \* Termination: every layer is one step and moves the phase forward; the configurations run with deadlock checking
 \* on, so a shape for which some layer has no outcome (an operator that is not total) is reported by TLC, and
